@@ -37,7 +37,8 @@ impl ByteCompiler<'_> {
                 //   Inc(dst, local); Move(local, dst) → 2 ops
                 //
                 // Post-increment (i++):
-                //   Move(dst, local); Inc(local, local) → 2 ops
+                //   Inc(tmp, local); Move(dst, local); Move(local, tmp) → 3 ops
+                //   (the result is the old value converted with ToNumeric)
                 //
                 // Inc(local, local) works because Inc writes new to dst AFTER old to src,
                 // so when dst==src the new value wins.
@@ -63,14 +64,18 @@ impl ByteCompiler<'_> {
                     }
 
                     if post {
-                        // Save old value to dst (post-increment returns old value).
-                        compiler.bytecode.emit_move(dst.variable(), local_op);
-                        // Increment in-place.
+                        // The result of a postfix update is ToNumeric(oldValue), not the old
+                        // value itself (`let s = "5"; s++` is the number 5): `Inc`/`Dec` leave
+                        // the converted old value in their source register.
+                        let value = compiler.register_allocator.alloc();
                         if increment {
-                            compiler.bytecode.emit_inc(local_op, local_op);
+                            compiler.bytecode.emit_inc(value.variable(), local_op);
                         } else {
-                            compiler.bytecode.emit_dec(local_op, local_op);
+                            compiler.bytecode.emit_dec(value.variable(), local_op);
                         }
+                        compiler.bytecode.emit_move(dst.variable(), local_op);
+                        compiler.bytecode.emit_move(local_op, value.variable());
+                        compiler.register_allocator.dealloc(value);
                     } else {
                         if increment {
                             compiler.bytecode.emit_inc(dst.variable(), local_op);
